@@ -372,8 +372,8 @@ sort, scaling by `sqrt`), **under the explicit contract of numpy's kernels only*
 * `hsqrt`: `sqrtVal² = val` on the eigenvalues that pass the filter;
 * `hzero`: eigenvalues inside the zero filter (`|λ| ≤ atolSettings`) are exactly 0 (exact arithmetic).
 Then for a map that passes the CP verdict, `to_hs_from_kraus_matrices(to_kraus_matrices_from_hs(hs)) = hs`
-(before `truncate_hs`).  The phase convention of step 3 multiplies each operator by a unit-modulus scalar and
-leaves `Σ K ⊗ conj K`, hence the result, unchanged; it is checked on the implementation by the oracle. -/
+(before `truncate_hs`).  `krausRaw` is the list before the phase convention of step 3; the complete function,
+phase convention included, is `krausFull` / `kraus_full_roundtrip` below. -/
 theorem kraus_roundtrip {d : Nat} (B : Basis CRat d (d * d)) (h : Orthonormal B)
     (hs : Mat CRat (d * d) (d * d)) (eigs : List (EigPair d)) (atol atolS : Rat)
     (hcp : isCp (choiSparse B hs) eigs atol = true)
@@ -411,6 +411,232 @@ theorem truncEntry_real (eps : Rat) (x : Rat) (hx : ¬ rabs x < eps) :
     truncEntry eps ⟨x, 0⟩ = .ok x := by
   simp [truncEntry, hx]
 
+/-! ## the guard of `truncate_hs` inside the matrix → real-coefficient conversions -/
+
+/-- `to_vec_from_density_matrix_with_sparsity` / `to_vec_from_matrix_with_sparsity` as executed: the call is
+**accepted iff** every complex coefficient `c_a = vdot(B_a, ρ)` has imaginary part below the threshold or
+exactly zero; otherwise it raises, and the only error is the "imaginary parts" ValueError. -/
+theorem vecOfDensity_accepts_iff {d n : Nat} (eps : Rat) (B : Basis CRat d n) (rho : Mat CRat d d) :
+    ((∃ r, vecOfDensity eps B rho = .ok r) ↔
+      ∀ a, rabs ((vecOfDensityRaw B rho).get a).im < eps ∨ ((vecOfDensityRaw B rho).get a).im = 0) ∧
+    (∀ e, vecOfDensity eps B rho = .error e → e = .imagNonZero) := by
+  unfold vecOfDensity
+  refine ⟨?_, fun e he => (truncList_error eps _ e he).1⟩
+  rw [truncList_isOk_iff]
+  constructor
+  · intro h a; exact h _ ((mem_toList_iff_get _ _).2 ⟨a, rfl⟩)
+  · intro h z hz
+    obtain ⟨a, rfl⟩ := (mem_toList_iff_get _ _).1 hz
+    exact h a
+
+/-- accepted ⇒ the returned real vector is the coefficient vector up to the threshold: entry `a` is
+`Re c_a`, or `0` when `|Re c_a| < eps` (fluctuation cut), and `|Im c_a| < eps` or `Im c_a = 0`. -/
+theorem vecOfDensity_accepted_coeffs {d n : Nat} (eps : Rat) (B : Basis CRat d n) (rho : Mat CRat d d)
+    (r : List Rat) (h : vecOfDensity eps B rho = .ok r) :
+    r.length = n ∧ ∀ (a : Fin n) (ha : a.val < r.length),
+      let c := (vecOfDensityRaw B rho).get a
+      (rabs c.im < eps ∨ c.im = 0) ∧ ((r[a.val] = c.re ∧ ¬ rabs c.re < eps) ∨ (r[a.val] = 0 ∧ rabs c.re < eps)) := by
+  unfold vecOfDensity at h
+  obtain ⟨h1, h2⟩ := truncList_ok eps _ r h
+  refine ⟨by simpa using h1, ?_⟩
+  intro a ha
+  have := h2 a.val (by simp) ha
+  have e : (vecOfDensityRaw B rho).toList[a.val]'(by simp) = (vecOfDensityRaw B rho).get a := by
+    simp [Vec.get]
+  rw [e] at this
+  exact truncEntry_ok eps _ _ this
+
+/-- accepted with threshold 0 ⇒ **the result rebuilds the input**: the complex coefficient vector is exactly the
+returned real vector, and for a complete basis `Σ_a r_a B_a = ρ`. -/
+theorem vecOfDensity_accepted_rebuilds {d n : Nat} (B : Basis CRat d n) (hC : Complete B) (rho : Mat CRat d d)
+    (r : List Rat) (h : vecOfDensity 0 B rho = .ok r) :
+    ∃ v : Vec CRat n, (∀ (a : Fin n) (ha : a.val < r.length), v.get a = CRat.ofRat r[a.val]) ∧
+      densitySparse B v = rho := by
+  refine ⟨vecOfDensityRaw B rho, ?_, density_vec_density B hC rho⟩
+  intro a ha
+  obtain ⟨_, h2⟩ := vecOfDensity_accepted_coeffs 0 B rho r h
+  obtain ⟨him, hre⟩ := h2 a ha
+  have hn : ∀ x : Rat, ¬ rabs x < 0 := fun x hx => absurd (rabs_nonneg x) (not_le.2 hx)
+  have him0 : ((vecOfDensityRaw B rho).get a).im = 0 := by
+    rcases him with h' | h'
+    · exact absurd h' (hn _)
+    · exact h'
+  rcases hre with ⟨h', _⟩ | ⟨_, h'⟩
+  · apply CRat.ext' <;> simp [CRat.ofRat, h', him0]
+  · exact absurd h' (hn _)
+
+/-- a Hermitian matrix is never rejected (Hermitian basis, every threshold): its coefficients are real. -/
+theorem vecOfDensity_hermitian_accepted {d n : Nat} (eps : Rat) (B : Basis CRat d n) (hB : HermitianBasis B)
+    (rho : Mat CRat d d) (hr : IsHermitianMat rho) : ∃ r, vecOfDensity eps B rho = .ok r := by
+  rw [(vecOfDensity_accepts_iff eps B rho).1]
+  intro a
+  exact Or.inr (CRat.im_eq_zero_of_star_eq _ (coeff_real_of_hermitian B hB rho hr a))
+
+/-- **a non-Hermitian matrix is rejected, not converted into some other operator** (complete Hermitian basis,
+threshold 0; with a threshold `eps` exactly the inputs with some `|Im c_a| ≥ eps` are rejected, see
+`vecOfDensity_accepts_iff`). -/
+theorem vecOfDensity_nonhermitian_rejected {d n : Nat} (B : Basis CRat d n) (hB : HermitianBasis B)
+    (hC : Complete B) (rho : Mat CRat d d) (hr : ¬ IsHermitianMat rho) :
+    vecOfDensity 0 B rho = .error .imagNonZero := by
+  cases h : vecOfDensity 0 B rho with
+  | error e => rw [(vecOfDensity_accepts_iff 0 B rho).2 e h]
+  | ok r =>
+    exfalso
+    apply hr
+    apply hermitian_of_coeff_real B hB hC rho
+    intro a
+    have := ((vecOfDensity_accepts_iff 0 B rho).1.1 ⟨r, h⟩) a
+    have hn : ¬ rabs ((vecOfDensityRaw B rho).get a).im < 0 :=
+      fun hx => absurd (rabs_nonneg _) (not_le.2 hx)
+    rcases this with h' | h'
+    · exact absurd h' hn
+    · exact CRat.star_eq_of_im_eq_zero _ h'
+
+/-- the same guard in `to_hs_from_choi_with_sparsity` / `_with_dict` as executed: accepted iff every entry of
+the raw complex HS matrix has imaginary part below the threshold or zero; the only error is the ValueError. -/
+theorem hsOfChoi_accepts_iff {d : Nat} (eps : Rat) (B : Basis CRat d (d * d)) (c : Mat CRat (d * d) (d * d)) :
+    ((∃ r, hsOfChoiSparse eps B c = .ok r) ↔
+      ∀ z ∈ matList (hsOfChoiSparseRaw B c), rabs z.im < eps ∨ z.im = 0) ∧
+    ((∃ r, hsOfChoiDict eps B c = .ok r) ↔
+      ∀ z ∈ matList (hsOfChoiDictRaw B c), rabs z.im < eps ∨ z.im = 0) ∧
+    (∀ e, hsOfChoiSparse eps B c = .error e ∨ hsOfChoiDict eps B c = .error e → e = .imagNonZero) := by
+  refine ⟨truncList_isOk_iff eps _, truncList_isOk_iff eps _, ?_⟩
+  rintro e (h | h) <;> exact (truncList_error eps _ e h).1
+
+/-! ## Kraus operators denote the same channel -/
+
+/-- **HS → Kraus preserves the channel** (∀ d): under the explicit kernel contract `EighContract`, for a map
+that passes the CP verdict, the operators `K_e` returned by the executable `krausRaw` satisfy
+`Σ_e K_e ρ K_e^† = Λ(ρ)` for every matrix `ρ`, where `Λ` is the map denoted by `hs`
+(coefficients of `ρ` in `B`, multiplied by `hs`, re-expanded in `B`); moreover Kraus → HS → Choi returns the
+Choi matrix of `hs`, and Kraus → HS returns `hs`. -/
+theorem kraus_channel_preserved {d : Nat} (B : Basis CRat d (d * d)) (h : Orthonormal B)
+    (hs : Mat CRat (d * d) (d * d)) (eigs : List (EigPair d)) (atol atolS : Rat)
+    (hcp : isCp (choiSparse B hs) eigs atol = true) (hc : EighContract B hs eigs atolS) (rho : Mat CRat d d) :
+    krausApply (krausRaw B hs eigs atol atolS) rho = densitySparse B (hs.mulVec (vecOfDensityRaw B rho)) ∧
+    choiSparse B (hsOfKrausRaw B (krausRaw B hs eigs atol atolS)) = choiSparse B hs ∧
+    hsOfKrausRaw B (krausRaw B hs eigs atol atolS) = hs := by
+  have hrt := kraus_roundtrip B h hs eigs atol atolS hcp hc.spec hc.sqrt_exact hc.filtered_zero
+  refine ⟨?_, by rw [hrt], hrt⟩
+  rw [← kraus_hs_action B h, hrt]
+
+/-- **the complete `to_kraus_matrices_from_hs`** (`krausFull`: CP verdict, zero filter, stable descending sort,
+`sqrt` scaling AND the phase convention of step 3 — first non-zero entry made non-negative in numpy's complex
+order) under the explicit contracts of numpy's `eigh`, `sqrt` (`EighContract`) and `abs` (`AbsContract`):
+Kraus → HS returns `hs`, and the returned operators act as the channel denoted by `hs`. -/
+theorem kraus_full_roundtrip {d : Nat} (B : Basis CRat d (d * d)) (h : Orthonormal B)
+    (hs : Mat CRat (d * d) (d * d)) (eigs : List (EigPair d)) (atol atolS : Rat)
+    (hcp : isCp (choiSparse B hs) eigs atol = true) (hc : EighContract B hs eigs atolS)
+    (habs : AbsContract eigs) (rho : Mat CRat d d) :
+    hsOfKrausRaw B (krausFull B hs eigs atol atolS) = hs ∧
+    krausApply (krausFull B hs eigs atol atolS) rho = densitySparse B (hs.mulVec (vecOfDensityRaw B rho)) := by
+  have hrt : hsOfKrausRaw B (krausFull B hs eigs atol atolS) = hs := by
+    apply kraus_roundtrip_partial B h hs
+    intro i j
+    rw [krausFull_sum B hs eigs atol atolS habs i j,
+      krausRaw_sum B hs eigs atol atolS hcp hc.sqrt_exact hc.filtered_zero i j, hc.spec i j]
+    rfl
+  exact ⟨hrt, by rw [← kraus_hs_action B h, hrt]⟩
+
+/-- the phase convention of step 3 (each operator multiplied by a unit-modulus scalar) does not change
+`Σ K ⊗ conj K`, hence neither the HS matrix nor the channel: Kraus-equivalence. -/
+theorem kraus_phase_invariant (B : Basis K d (d * d)) (ps : List K) (ks : List (Mat K d d))
+    (hp : ∀ p ∈ ps, p * star p = 1) (hlen : ps.length = ks.length) :
+    krausTensorSum (phased ps ks) = krausTensorSum ks ∧ hsOfKrausRaw B (phased ps ks) = hsOfKrausRaw B ks := by
+  have e : krausTensorSum (phased ps ks) = krausTensorSum ks := by
+    apply Mat.ext'; intro x y
+    rw [krausTensorSum_get, krausTensorSum_get, phased_sum ps ks hp hlen]
+  exact ⟨e, by unfold hsOfKrausRaw; rw [e]⟩
+
+/-! ## tie to the source: the model is built from the terms GENERATED from quara's code (lean/QGen/C02.lean)
+
+`harness/c02gen.py` locates each decisive expression of the conversion code in the working tree (index order,
+operand order, conjugation, transposition, flattening, guard conditions, callees) and translates it to a term
+over the model's matrix operations.  The theorems below state that the hand-written model is made of exactly
+these generated terms; a source edit at such a site changes `QGen.C02.*` and breaks the theorem (or, outside the
+translatable grammar, makes the generator fail loudly). -/
+
+/-- HS → Choi: the loop body `hs[alpha][beta] * bb`, `bb = B_α ⊗ conj(B_β)`; the dict body
+`choi[i, j] += hs[alpha, beta] * coefficient` with coefficients read from the same Kronecker product. -/
+theorem gen_choi_forward [DecidableEq K] (B : Basis K d (d * d)) (hs : Mat K (d * d) (d * d)) (i j al be : Fin (d * d)) :
+    choiLoop B hs = reduceAdd ((pairs (d * d)).map fun p =>
+        QGen.C02.choiLoopTerm hs (QGen.C02.bbc_dense B p.1 p.2) p.1 p.2) ∧
+    (choiDict B hs).get i j
+      = (dictHsToChoi B i j).foldl (fun acc t => acc + QGen.C02.choiDictTerm hs t.1 t.2.1 t.2.2) 0 ∧
+    bbcEntry B al be i j = (QGen.C02.bbc_dictFwd B al be).get i j := by
+  refine ⟨rfl, by simp [choiDict, QGen.C02.choiDictTerm], ?_⟩
+  rw [← bbc_get]; rfl
+
+/-- Choi → HS: the loop entry `(np.conjugate(b_bc.T) @ choi).diagonal().sum()`, the dict body
+`hs[alpha, beta] += coefficient * choi[j, i]` (transposed index, no conjugate). -/
+theorem gen_choi_inverse [DecidableEq K] (B : Basis K d (d * d)) (c : Mat K (d * d) (d * d)) (i j al be : Fin (d * d)) :
+    (hsOfChoiLoopRaw B c).get al be = QGen.C02.hsLoopEntry (QGen.C02.bbc_dense B al be) c ∧
+    (hsOfChoiDictRaw B c).get al be
+      = (dictChoiToHs B al be).foldl (fun acc t => acc + QGen.C02.hsDictTerm c t.1 t.2.1 t.2.2) 0 ∧
+    bbcEntry B al be i j = (QGen.C02.bbc_dictInv B al be).get i j := by
+  refine ⟨?_, by simp [hsOfChoiDictRaw, QGen.C02.hsDictTerm], ?_⟩
+  · simp only [hsOfChoiLoopRaw, Mat.get_ofFn, QGen.C02.hsLoopEntry, conjM_transpose]; rfl
+  · rw [← bbc_get]; rfl
+
+/-- the sparse tables: row `(α, β)` is the row-major flattening of `sparse.kron(B_α, conj B_β)` of length
+`element_size = d ** 2 ** 2`; the forward table is its transpose, the inverse table its conjugate; the product is
+reshaped to `(dim², dim²)`; the state tables have rows `flatten(B_a)` and `flatten(B_a.conjugate())`. -/
+theorem gen_sparse_tables (B : Basis K d (d * d)) (x y : Fin ((d * d) * (d * d))) {n : Nat} (Bn : Basis K d n)
+    (a : Fin n) (z : Fin (d * d)) :
+    (bbcT B).get x y = (flat (QGen.C02.bbc_sparse B (pdiv y) (pmod y))).get x ∧
+    (bbcConj B).get y x = conj ((flat (QGen.C02.bbc_sparse B (pdiv y) (pmod y))).get x) ∧
+    QGen.C02.elementSize d = (d * d) * (d * d) ∧ QGen.C02.choiShape d = (d * d, d * d) ∧
+    (basisT Bn).get z a = (QGen.C02.basisRow (Bn.get a)).get z ∧
+    (basisConj Bn).get a z = (QGen.C02.basisConjRow (Bn.get a)).get z := by
+  refine ⟨?_, ?_, ?_, ?_, ?_, ?_⟩
+  · simp only [bbcT, Mat.get_ofFn, flat_get, ← bbc_get]; rfl
+  · simp only [bbcConj, Mat.get_ofFn, flat_get, ← bbc_get]; rfl
+  · simp only [QGen.C02.elementSize]; ring
+  · simp only [QGen.C02.choiShape, Prod.mk.injEq]; constructor <;> ring
+  · simp [basisT, QGen.C02.basisRow]
+  · simp [basisConj, QGen.C02.basisConjRow, conjM]
+
+/-- change of basis: `U[a, b] = vdot(to_a, from_b)` (product over `(to_basis, from_basis)`),
+`to_hs = U @ from_hs @ U.conj().T`, `converted_vec = rep_mat @ from_vec`; `mutil.vdot` is `np.vdot(a, b)` and
+`mutil.flatten` is `matrix.flatten()`. -/
+theorem gen_basis_change {n : Nat} (F T : Basis K d n) (hs : Mat K n n) (v : Vec K n) (A C : Mat K d d) :
+    convertHs F T hs = QGen.C02.convertHsFormula (QGen.C02.convertHsU F T) hs ∧
+    convertVec F T v = QGen.C02.convertVecFormula (QGen.C02.convertVecRep F T) v ∧
+    QGen.C02.mutilVdot A C = vdot A C ∧ QGen.C02.mutilFlatten A = flat A := by
+  refine ⟨?_, rfl, rfl, rfl⟩
+  simp only [convertHs, QGen.C02.convertHsFormula, transpose_conjM]; rfl
+
+/-- Kraus → HS sums `np.kron(mat, mat.conjugate())`; the process-matrix entry is
+`(kron(B_alpha.conj().T, B_beta.T) @ hs_comp).diagonal().sum()` on the row-major computational basis. -/
+theorem gen_kraus_process (B : Basis K d (d * d)) (hs : Mat K (d * d) (d * d)) (ks : List (Mat K d d))
+    (al be : Fin (d * d)) :
+    krausTensorSum ks = ks.foldl (fun acc k => acc.add (QGen.C02.krausTensorTerm k)) Mat.zero ∧
+    (processMatrix B hs).get al be
+      = QGen.C02.processEntry ((compBasis d true : Basis K d (d * d)).get al) ((compBasis d true : Basis K d (d * d)).get be)
+          (convertHs B (compBasis d true) hs) := by
+  refine ⟨rfl, ?_⟩
+  simp only [processMatrix, Mat.get_ofFn, QGen.C02.processEntry, transpose_conjM]
+
+/-- `get_comp_basis`: the element built at loop step `(outer, inner)` has its 1 at the generated position
+(row-major: `(outer, inner)`, column-major: `(inner, outer)`). -/
+theorem gen_comp_basis (rm : Bool) (x : Fin (d * d)) (i j : Fin d) :
+    ((compBasis d rm : Basis K d (d * d)).get x).get i j
+      = if (i.val, j.val) = QGen.C02.compEntry rm (pdiv x).val (pmod x).val then 1 else 0 := by
+  cases rm <;> simp [compBasis, eMat_get, QGen.C02.compEntry, Fin.ext_iff]
+
+/-- `truncate_hs`: the model's entry function is the generated guard / raise / `.real` / fluctuation-cut skeleton
+with the generated conditions `np.abs(matrix.imag) < eps` and `np.abs(matrix) < eps`. -/
+theorem gen_truncate (eps : Rat) (z : CRat) : truncEntry eps z = QGen.C02.truncEntryGen eps z := by
+  unfold truncEntry QGen.C02.truncEntryGen QGen.C02.truncImagCond QGen.C02.truncFluctCond
+  by_cases h1 : rabs z.im < eps <;> by_cases h3 : rabs z.re < eps <;> simp [h1, h3]
+
+/-- callees: `to_var_from_choi` goes through the INVERSE conversion (former defect D3), `to_choi_from_var`
+through the forward one; `Povm.matrix_with_sparsity` / `_md_index2serial_index` match their skeletons. -/
+theorem gen_callees :
+    QGen.C02.toVarFromChoiCallee = "to_hs_from_choi_with_sparsity" ∧
+    QGen.C02.toChoiFromVarCallee = "to_choi_from_hs_with_sparsity" ∧ QGen.C02.povmSkeletonMatched = true := by
+  decide
+
 /-! ## non-vacuity: concrete instances of the hypotheses -/
 
 -- the computational basis is orthonormal over every star-ring, e.g. ℂ, for every d
@@ -429,9 +655,32 @@ example (hs : Mat CRat (2 * 2) (2 * 2)) : choiDict B0 hs = choiSparse B0 hs :=
 -- filter drops
 def idHs : Mat CRat (2 * 2) (2 * 2) := Mat.ofFn fun i j => if i = j then 1 else 0
 def idEigs : List (EigPair 2) :=
-  [⟨0, 0, #v[⟨1, 0⟩, ⟨0, 0⟩, ⟨0, 0⟩, ⟨-1, 0⟩]⟩, ⟨1, 1, #v[⟨1, 0⟩, ⟨0, 0⟩, ⟨0, 0⟩, ⟨1, 0⟩]⟩]
+  [⟨0, 0, #v[⟨1, 0⟩, ⟨0, 0⟩, ⟨0, 0⟩, ⟨-1, 0⟩], #v[0, 0, 0, 0]⟩,
+   ⟨1, 1, #v[⟨1, 0⟩, ⟨0, 0⟩, ⟨0, 0⟩, ⟨1, 0⟩], #v[1, 0, 0, 1]⟩]
 example : hsOfKrausRaw B0 (krausRaw B0 idHs idEigs 0 0) = idHs :=
   kraus_roundtrip B0 B0_orthonormal idHs idEigs 0 0 (by decide +kernel)
     (by intro i j; revert i j; decide +kernel) (by decide +kernel) (by decide +kernel)
+
+-- the kernel contract as one hypothesis, on the same instance; the channel of the identity gate is preserved
+example : EighContract B0 idHs idEigs 0 :=
+  ⟨by intro i j; revert i j; decide +kernel, by decide +kernel, by decide +kernel⟩
+example (rho : Mat CRat 2 2) :
+    krausApply (krausRaw B0 idHs idEigs 0 0) rho = densitySparse B0 (idHs.mulVec (vecOfDensityRaw B0 rho)) :=
+  (kraus_channel_preserved B0 B0_orthonormal idHs idEigs 0 0 (by decide +kernel)
+    ⟨by intro i j; revert i j; decide +kernel, by decide +kernel, by decide +kernel⟩ rho).1
+example (rho : Mat CRat 2 2) : hsOfKrausRaw B0 (krausFull B0 idHs idEigs 0 0) = idHs :=
+  (kraus_full_roundtrip B0 B0_orthonormal idHs idEigs 0 0 (by decide +kernel)
+    ⟨by intro i j; revert i j; decide +kernel, by decide +kernel, by decide +kernel⟩
+    (by unfold AbsContract; decide +kernel) rho).1
+-- guard: a Hermitian input (E₀₀) is accepted, the matrix unit E₀₁ is not Hermitian and is rejected
+def e00 : Mat CRat 2 2 := #v[#v[⟨1, 0⟩, ⟨0, 0⟩], #v[⟨0, 0⟩, ⟨0, 0⟩]]
+def e01 : Mat CRat 2 2 := #v[#v[⟨0, 0⟩, ⟨1, 0⟩], #v[⟨0, 0⟩, ⟨0, 0⟩]]
+example : IsHermitianMat e00 := by intro i j; revert i j; decide +kernel
+example : vecOfDensity 0 B0 e01 = .error .imagNonZero :=
+  vecOfDensity_nonhermitian_rejected B0 B0_hermitian (complete_of_orthonormal B0 B0_orthonormal) e01
+    (by intro h; have := h 0 1; revert this; decide +kernel)
+example : vecOfDensity 0 B0 e00 = .ok [1, 0, 0, 0] := by decide +kernel
+-- a unit-modulus phase over the executed scalars
+example : ∀ p ∈ [(⟨0, 1⟩ : CRat), ⟨-1, 0⟩], p * star p = 1 := by decide +kernel
 
 end QM.C02
